@@ -3,8 +3,8 @@ import os, re, json
 from fractions import Fraction
 from . import gen, tlc
 
-PROPS = ["P_Balanced", "P_Prescribed", "P_Guards", "P_Delivery"]
-INVS = ["WellFormedState", "WellFormedCallbacks", "RoundTrip"]
+PROPS = ["P_Balanced", "P_Prescribed", "P_Guards", "P_Delivery", "P_Replay"]
+INVS = ["WellFormedState", "WellFormedCallbacks", "RoundTrip", "ResumeNamed"]
 
 
 def pair_menu(fx):
